@@ -115,9 +115,12 @@ ServeOk == \A r \in Readers : (gen = cgen[r] /\ gen # 0) => cpub[r] = done
 
 \* ------------------------------------------------------------------ the inductive strengthening
 TypeOK ==
+  /\ gen \in Int /\ w1 \in Int /\ w2 \in Int /\ cur \in Int /\ done \in Int
   /\ gen >= 0 /\ cur >= 0 /\ done >= 0 /\ done <= cur
   /\ wpc \in {"idle", "ld", "odd", "h1", "h2", "dead"}
-  /\ \A r \in Readers : rpc[r] \in {"idle", "g1", "d1", "d2"}
+  /\ rpc \in [Readers -> {"idle", "g1", "d1", "d2"}]
+  /\ rg1 \in [Readers -> Int] /\ rv1 \in [Readers -> Int] /\ rv2 \in [Readers -> Int]
+  /\ cgen \in [Readers -> Int] /\ cpub \in [Readers -> Int]
 
 WriterInv ==
   /\ (wpc \in {"odd", "h1", "h2"} => ~IsEven(gen))
